@@ -33,8 +33,76 @@ func checkC01(c *Ctx, r *Result, tier string) {
 // structFieldsRead: fields of struct type T read by fn and everything it reaches in the module.
 func structFieldsRead(c *Ctx, roots []*ssa.Function, T *types.Named) map[*types.Var][]string {
 	out := map[*types.Var][]string{}
-	reach := c.Reachable(roots, nil)
-	for _, fn := range reach.Order {
+	// reachability with one level of context for function-valued parameters: a helper that is
+	// handed a function literal and calls it (a visitor) reaches, from this call site, that
+	// literal only — not every literal any caller hands to it
+	type item struct {
+		fn   *ssa.Function
+		bind map[*ssa.Parameter]*ssa.Function
+	}
+	keyOf := func(it item) string {
+		var parts []string
+		for p, f := range it.bind {
+			parts = append(parts, p.Name()+"="+c.FuncKey(f))
+		}
+		sort.Strings(parts)
+		return c.FuncKey(it.fn) + "|" + strings.Join(parts, ",")
+	}
+	seenCtx := map[string]bool{}
+	seenFn := map[*ssa.Function]bool{}
+	var order []*ssa.Function
+	var work []item
+	for _, r0 := range roots {
+		work = append(work, item{r0, nil})
+	}
+	for len(work) > 0 {
+		it := work[len(work)-1]
+		work = work[:len(work)-1]
+		k := keyOf(it)
+		if seenCtx[k] || len(it.fn.Blocks) == 0 && it.fn.Synthetic == "" {
+			continue
+		}
+		seenCtx[k] = true
+		if !seenFn[it.fn] {
+			seenFn[it.fn] = true
+			order = append(order, it.fn)
+		}
+		allInstrs(it.fn, func(in ssa.Instruction) {
+			if mc, ok := in.(*ssa.MakeClosure); ok {
+				_ = mc // reached when called
+			}
+			ci, ok := in.(ssa.CallInstruction)
+			if !ok {
+				return
+			}
+			if prm, isPrm := ci.Common().Value.(*ssa.Parameter); isPrm && !ci.Common().IsInvoke() {
+				if f, bound := it.bind[prm]; bound {
+					work = append(work, item{f, nil})
+					return
+				}
+			}
+			for _, callee := range c.Callees(ci) {
+				if !c.inModule(callee) {
+					continue
+				}
+				var nb map[*ssa.Parameter]*ssa.Function
+				args := callArgs(ci.Common())
+				for i, a := range args {
+					if mc, isMC := stripConv(a).(*ssa.MakeClosure); isMC && i < len(callee.Params) {
+						if cf, isF := mc.Fn.(*ssa.Function); isF {
+							if nb == nil {
+								nb = map[*ssa.Parameter]*ssa.Function{}
+							}
+							nb[callee.Params[i]] = cf
+						}
+					}
+				}
+				work = append(work, item{callee, nb})
+			}
+		})
+	}
+	sort.Slice(order, func(i, j int) bool { return c.FuncKey(order[i]) < c.FuncKey(order[j]) })
+	for _, fn := range order {
 		allInstrs(fn, func(in ssa.Instruction) {
 			var f *types.Var
 			var base types.Type
